@@ -14,30 +14,7 @@
 (* MC_Coin.tla checks the theorems exhaustively in a small group,           *)
 (* CoinTrace.tla validates logs of the real code against these actions.     *)
 (***************************************************************************)
-EXTENDS Prims
-
-\* ---- Pedersen commitments in the subgroup of order q of Z_p^*;  G = [p, q, g, h]
-Member(G, a) == a > 0 /\ a < G.p /\ PowM(a, G.q, G.p) = 1
-Commit(G, a, r) == (PowZ(G.g, a, G.p) * PowZ(G.h, r, G.p)) % G.p     \* integer exponents, sign allowed
-Subgroup(G) == {x \in 1..(G.p - 1) : PowM(x, G.q, G.p) = 1}
-\* a well-formed common reference string
-GoodGroup(G) == /\ IsPrime(G.p) /\ IsPrime(G.q) /\ (G.p - 1) % G.q = 0 /\ GCD(G.q, (G.p - 1) \div G.q) = 1
-                /\ G.g > 1 /\ G.g < G.p - 1 /\ G.h > 1 /\ G.h < G.p - 1 /\ G.g # G.h
-                /\ PowM(G.g, G.q, G.p) = 1 /\ PowM(G.h, G.q, G.p) = 1
-
-\* ---- values on the wire: sign and magnitude; sm = -1: a number too large for the model (>= 2^30, in
-\* particular >= p and >= q); sm = -2: a line that is not a number at all
-Num(x) == [sg |-> IF x > 0 THEN 1 ELSE IF x < 0 THEN -1 ELSE 0, sm |-> IF x < 0 THEN -x ELSE x]
-Junk == [sg |-> 0, sm |-> -2]
-Big(s) == [sg |-> s, sm |-> -1]
-IsNum(m) == m.sm # -2
-Small(m) == m.sm >= 0
-Val(m) == m.sg * m.sm
-IsMemberMsg(G, m) == IsNum(m) /\ Small(m) /\ m.sg = 1 /\ Member(G, m.sm)
-AbsBelowQ(G, m) == IsNum(m) /\ Small(m) /\ m.sm < G.q
-\* the opening <<ma, mr>> fits the commitment c: the definition of "matches the earlier commitment"
-Matches(G, c, ma, mr) == /\ AbsBelowQ(G, ma) /\ AbsBelowQ(G, mr)
-                         /\ Commit(G, Val(ma), Val(mr)) = c
+EXTENDS Pedersen
 
 Party == {0, 1}
 Peer(i) == 1 - i
